@@ -368,6 +368,45 @@ def parse_races(out):
     return res
 
 
+def parse_crash(out, marker="explorer-backend/"):
+    """A `panic:` / `fatal error:` that killed the test process: (signature, text) when the innermost frame that belongs
+    to the module under test is code under test (not the injected harness, whose files are zz_verif_*), else None."""
+    m = re.search(r"(?m)^(panic|fatal error): (.*)$", out)
+    if not m:
+        return None
+    text = re.sub(r"\s*\[recovered\].*", "", m.group(2)).strip()
+    tail = out[m.start():]
+    g = re.search(r"(?m)^goroutine \d+ \[[^\]]*\]:\n((?:.+\n?)+)", tail)
+    if not g:
+        return None
+    lines = g.group(1).splitlines()
+    for i, ln in enumerate(lines):
+        if ln.startswith("\t") or marker not in ln:
+            continue
+        where = lines[i + 1] if i + 1 < len(lines) else ""
+        if "zz_verif" in where:
+            return None           # the harness itself panicked
+        fn = re.sub(r"\([^()]*\)$", "", ln.split(marker)[1].strip())     # drop the argument list
+        fn = re.sub(r"\(\*(\w+)\)", r"\1", fn)
+        val = re.sub(r"0x[0-9a-f]+", "0x", re.sub(r"\d+", "N", text))
+        sig = "crash/%s/%s" % (re.sub(r"[^A-Za-z0-9.]+", "-", fn).strip("-"), re.sub(r"[^A-Za-z0-9]+", "-", val)[:70].strip("-"))
+        return sig, tail[:3500]
+    return None
+
+
+def _read_trace(path):
+    res = []
+    if os.path.exists(path):
+        for line in open(path, errors="replace"):
+            line = line.strip()
+            if line:
+                try:
+                    res.append(json.loads(line))
+                except ValueError:
+                    break             # the process died while writing
+    return res
+
+
 def replay(work, scenarios, kind, tag):
     scp = os.path.join(work, "scenarios_%s_%s.ndjson" % (tag, kind))
     trp = os.path.join(work, "trace_%s_%s.ndjson" % (tag, kind))
@@ -378,10 +417,18 @@ def replay(work, scenarios, kind, tag):
                      else ("./processor", "TestVerifExplorerPush", INJECT_PUSH))
     rc, out, wall = vlib.go_test(work, "explorer-backend", pkg, run, inj,
                                  env={"VERIF_SCENARIOS": scp, "VERIF_TRACE": trp, "VERIF_SEED": vlib.seed()}, race=True, timeout=900)
+    crash = None
     if "VERIF-REPLAYED" not in out:
-        raise vlib.Broken("explorer harness (%s) did not complete (rc=%d):\n%s" % (kind, rc, out[-4000:]))
-    lines = vlib.read_ndjson(trp)
-    return lines, parse_races(out), wall
+        # the process died: a crash inside a goroutine of the code under test (which no recover() of the harness can
+        # reach) is an observation about the code; anything else is a broken harness
+        crash = parse_crash(out)
+        if crash is None:
+            raise vlib.Broken("explorer harness (%s) did not complete (rc=%d):\n%s" % (kind, rc, out[-4000:]))
+    lines = _read_trace(trp)
+    if crash:
+        done = set(ln["t"] for ln in lines)
+        crash = (crash[0], crash[1], [s["tid"] for s in scenarios if s["tid"] not in done][:1])
+    return lines, parse_races(out), wall, crash
 
 
 def _width(tl):
